@@ -1,7 +1,7 @@
 ----------------------------- MODULE Trace_TDesc -----------------------------
 (* Binding B for C14.  Events: TDesc {o, typedefs, enums, structs, svcs,      *)
 (* mainsvcs, st, svcname, fns, nodes} - see TDesc.tla; self-contained.        *)
-EXTENDS TDesc, TraceKit
+EXTENDS TMirror, TraceKit
 
 Trace == ndJsonDeserialize("trace.ndjson")
 VARIABLES l
